@@ -240,6 +240,13 @@ def _run(ctx, st):
             out = classify(m, st, ctx, "mutant")
             if i % 400 == 0:
                 ctx.sample({"valid": text[:120], "mutant": m[:120], "outcome": out})
+    # (5) non-ASCII characters that case-insensitive matching relates to keyword letters ------
+    j = 0
+    for base in _FOLD_TEXTS:
+        for v in dict.fromkeys(fold_variants(base)):
+            j += 1
+            if ctx.mine(j):
+                classify(v, st, ctx, "casefold")
     rng = ctx.rng("uni")
     alphabet = ("abcxyz019 '()/,:=-+.#\t\n\x00\\\"%_éß中😀’ʼ＇  "
                 "TZPeE")
@@ -255,9 +262,45 @@ def _run(ctx, st):
         classify(s, st, ctx, "unicode")
 
 
+# characters that Python's re.I / str.upper / str.lower / str.casefold relate to ASCII
+# letters although they are not ASCII: a lexer that is case-insensitive by regex flag sees
+# them as spellings of its keywords, later string operations may not
+_FOLD = {"i": "\u0130\u0131", "I": "\u0130\u0131", "s": "\u017f", "S": "\u017f",
+         "k": "\u212a", "K": "\u212a"}
+_FOLD_TEXTS = [
+    "1 add 2 eq 3", "1 sub 2 eq 3", "1 mul 2 eq 3", "7 div 2 eq 3", "7 mod 2 eq 1", "a ne 1",
+    "a lt 1", "a le 1", "a gt 1", "a ge 1", "a in (1,2)", "a eq 1 and b eq 2", "a eq 1 or b eq 2",
+    "not a", "a eq null", "a eq true", "a eq false", "x/any(y: y eq 1)", "x/all(y: y eq 1)",
+    "x/any()", "a eq duration'P1DT2H3M4S'", "geography'POINT(1 2)' eq a", "contains(s,'k')",
+    "startswith(s,'k')", "endswith(s, 'k')", "substring(s,1) eq 'k'", "indexof(s,'i') eq 1",
+    "tolower(s) eq 'k'", "toupper(s) eq 'K'", "trim(s) eq 's'", "concat(s,'k') eq 'sk'",
+    "length(s) eq 1", "year(d) eq 1", "minute(d) eq 1", "second(d) eq 1",
+    "fractionalseconds(d) eq 1", "totalseconds(x) eq 1", "date(d) eq 2020-01-01",
+    "time(d) eq 10:00:00", "now() gt d", "mindatetime() lt d", "maxdatetime() gt d",
+    "totaloffsetminutes(d) eq 1", "round(f) eq 1", "floor(f) eq 1", "ceiling(f) eq 1",
+    "geo.distance(a,b) eq 1", "geo.intersects(a,b)", "geo.length(a) eq 1", "hassubset(a,b)",
+    "hassubsequence(a,b)", "matchesPattern(s,'k')", "2020-01-01T10:00:00Z eq d",
+    "kind eq 'k' and is_k or skis in ('s',)", "my.ns.kiss(k=1, s='i')",
+]
+
+
+def fold_variants(text):
+    pos = [i for i, ch in enumerate(text) if ch in _FOLD]
+    for i in pos:
+        for alt in _FOLD[text[i]]:
+            yield text[:i] + alt + text[i + 1:]
+    for pick in (0, -1):
+        yield "".join(_FOLD[ch][pick] if ch in _FOLD else ch for ch in text)
+    yield text.upper()
+    yield text.swapcase()
+    yield text.title()
+
+
 def requirements(m):
     out = []
     c = m["counters"]
+    if not m["classes"].get("casefold"):
+        out.append("case-folding spellings never exercised")
     if c.get("M-parse", 0) == 0:
         out.append("M-parse contract never evaluated (parse never returned)")
     reach = [k for k in m["classes"] if k.startswith("reach:ODataParser.")]
